@@ -102,7 +102,23 @@ class Runner:
                     or len(sub.structures) != 1 or sub.connections):
                 self.misdirected = True
         elif name == "put":
-            uwg(tag).put()
+            # ... or the solver of an ENCLOSING, still open with-block is placed into the innermost one (legal: no cycle
+            # as long as the inner one is not inside the outer one): the placement belongs to the innermost solver
+            act = lk.sol_list[-1]
+            outer = lk.sol_list[-2] if len(lk.sol_list) >= 2 else None
+            edges = getattr(self, "inside", set())          # (a, b): a has been placed inside b
+            def reaches(x, y, seen=()):
+                return any(a is x and (b is y or (b not in seen and reaches(b, y, seen + (b,)))) for a, b in edges)
+            if outer is not None and outer is not act and outer in self.sols[1:] and act in self.sols \
+                    and not reaches(act, outer) and len(edges) < 3:
+                n0 = len(act.structures)
+                st = outer.put()
+                edges.add((outer, act))
+                self.inside = edges
+                if st not in act.structures or len(act.structures) != n0 + 1 or st.solver is not outer:
+                    self.misdirected = True
+            else:
+                uwg(tag).put()
         elif name == "putpin":
             st = uwg(tag).put()
             lk.putpin(f"q{tag}", st.pin[f"a{tag}"])
